@@ -167,14 +167,14 @@ impl Gate {
         })
     }
     pub fn pass(&self) {
-        let mut g = self.permits.lock().unwrap();
+        let mut g = self.permits.lock().unwrap_or_else(|e| e.into_inner());
         while *g == 0 {
             g = self.cv.wait(g).unwrap();
         }
         *g -= 1;
     }
     pub fn grant(&self, n: usize) {
-        *self.permits.lock().unwrap() += n;
+        *self.permits.lock().unwrap_or_else(|e| e.into_inner()) += n;
         self.cv.notify_all();
     }
 }
@@ -216,7 +216,7 @@ impl EntryIoStream for RecStream {
             Seen::Tagged(t) => self.script.get(t).copied().unwrap_or(Res::Ok),
             _ => Res::Ok,
         };
-        self.log.lock().unwrap().push(Ev::Next(seen, res));
+        self.log.lock().unwrap_or_else(|e| e.into_inner()).push(Ev::Next(seen, res));
         match res {
             Res::Ok => Ok(()),
             Res::Validation => Err(IoStreamError::Validation(ValidationError::invalid(
@@ -228,7 +228,7 @@ impl EntryIoStream for RecStream {
 
     fn flush(&mut self) -> io::Result<()> {
         self.shadow.touch();
-        self.log.lock().unwrap().push(Ev::Flush);
+        self.log.lock().unwrap_or_else(|e| e.into_inner()).push(Ev::Flush);
         if self.flush_error {
             Err(io::Error::other("scripted flush error"))
         } else {
@@ -240,7 +240,7 @@ impl EntryIoStream for RecStream {
 impl Drop for RecStream {
     fn drop(&mut self) {
         self.shadow.touch();
-        self.log.lock().unwrap().push(Ev::Dropped);
+        self.log.lock().unwrap_or_else(|e| e.into_inner()).push(Ev::Dropped);
         // observers waiting on the fake clock's monitor re-evaluate their condition
         metrique_writer_core::__verif::time::poke();
     }
@@ -264,13 +264,13 @@ impl std::task::Wake for SnapWaker {
     fn wake_by_ref(self: &Arc<Self>) {
         // runs on the thread that completes the future (the writer thread)
         self.shadow.touch();
-        let snap = self.log.lock().unwrap().clone();
-        let mut s = self.snapshot.lock().unwrap();
+        let snap = self.log.lock().unwrap_or_else(|e| e.into_inner()).clone();
+        let mut s = self.snapshot.lock().unwrap_or_else(|e| e.into_inner());
         if s.is_none() {
             *s = Some(snap);
         }
         drop(s);
-        *self.woken.lock().unwrap() = true;
+        *self.woken.lock().unwrap_or_else(|e| e.into_inner()) = true;
         self.cv.notify_all();
     }
 }
@@ -296,11 +296,11 @@ pub fn wait_with_snapshot<F: std::future::Future>(fut: F, log: &Log) -> (F::Outp
                     .lock()
                     .unwrap()
                     .take()
-                    .unwrap_or_else(|| log.lock().unwrap().clone());
+                    .unwrap_or_else(|| log.lock().unwrap_or_else(|e| e.into_inner()).clone());
                 return (v, snap);
             }
             std::task::Poll::Pending => {
-                let mut g = w.woken.lock().unwrap();
+                let mut g = w.woken.lock().unwrap_or_else(|e| e.into_inner());
                 while !*g {
                     g = w.cv.wait(g).unwrap();
                 }
@@ -317,10 +317,10 @@ pub struct Returned(pub Arc<Mutex<Vec<Tag>>>);
 
 impl Returned {
     pub fn push(&self, t: Tag) {
-        self.0.lock().unwrap().push(t);
+        self.0.lock().unwrap_or_else(|e| e.into_inner()).push(t);
     }
     pub fn get(&self) -> Vec<Tag> {
-        self.0.lock().unwrap().clone()
+        self.0.lock().unwrap_or_else(|e| e.into_inner()).clone()
     }
 }
 
@@ -344,15 +344,15 @@ impl<T: Clone + Default> Visible<T> {
     }
     pub fn update(&self, f: impl FnOnce(&mut T)) {
         self.shadow.touch();
-        f(&mut self.data.lock().unwrap());
+        f(&mut self.data.lock().unwrap_or_else(|e| e.into_inner()));
     }
     pub fn read(&self) -> T {
         self.shadow.touch();
-        self.data.lock().unwrap().clone()
+        self.data.lock().unwrap_or_else(|e| e.into_inner()).clone()
     }
     /// read without a scheduling point (for the oracle at the end of an execution)
     pub fn peek(&self) -> T {
-        self.data.lock().unwrap().clone()
+        self.data.lock().unwrap_or_else(|e| e.into_inner()).clone()
     }
 }
 
@@ -389,10 +389,10 @@ impl metrics_024::CounterFn for CounterCell {
         if let Some(s) = &self.shadow {
             s.touch();
         }
-        *self.counts.lock().unwrap().entry(self.name.clone()).or_default() += value;
+        *self.counts.lock().unwrap_or_else(|e| e.into_inner()).entry(self.name.clone()).or_default() += value;
     }
     fn absolute(&self, value: u64) {
-        self.counts.lock().unwrap().insert(self.name.clone(), value);
+        self.counts.lock().unwrap_or_else(|e| e.into_inner()).insert(self.name.clone(), value);
     }
 }
 
